@@ -120,7 +120,7 @@ func GenStream(r *payload.SplitMix, max int) Stream {
 	big := 0
 	for a := 0; a < nact; a++ {
 		kind := uint8(1 + r.Intn(7))
-		act := r.Intn(20)
+		act := r.Intn(21)
 		if effMax >= 1<<20 && big >= 2 && (act == 1 || act == 2) {
 			act = 0 // keep default-max streams affordable
 		}
@@ -198,6 +198,41 @@ func GenStream(r *payload.SplitMix, max int) Stream {
 			emit(refwire.Frame{Stream: sid, Message: mid, Kind: kind%7 + 1, Done: true, Data: body(r.Intn(10))})
 			mid++
 			desc = append(desc, "kind-change")
+		case act == 19: // a valid frame whose header uses the longest varint forms (ids >= 2^63, or zero-padded to 10 bytes), data at the limit
+			n := effMax - r.Intn(4)
+			if n < 0 || effMax >= 1<<20 {
+				n = r.Intn(min(effMax, 2000) + 1)
+			}
+			pad := func(dst []byte, v uint64) []byte { // non-canonical: continuation bytes up to the 10-byte maximum
+				k := 0
+				for v > 0x7f {
+					dst = append(dst, byte(v)|0x80)
+					v >>= 7
+					k++
+				}
+				for ; k < 9; k++ {
+					dst = append(dst, byte(v)|0x80)
+					v = 0
+				}
+				return append(dst, byte(v))
+			}
+			if r.Intn(2) == 0 {
+				sid = uint64(1)<<63 + sid%1000
+				mid = uint64(1)<<63 + mid%1000
+			}
+			hdr := []byte{kind<<1 | 1}
+			enc := refwire.PutUvarint
+			if r.Intn(3) != 0 {
+				enc = pad
+			}
+			hdr = enc(hdr, sid)
+			hdr = enc(hdr, mid)
+			hdr = pad(hdr, uint64(n))
+			b = append(b, hdr...)
+			b = append(b, body(n)...)
+			st.Edges = append(st.Edges, len(b))
+			desc = append(desc, fmt.Sprintf("long-header(s%d,m%d,len%d,hdr%d)", sid, mid, n, len(hdr)))
+			mid++
 		case act == 12: // frame declaring a huge length, few bytes follow
 			hdr := []byte{kind<<1 | 1}
 			hdr = refwire.PutUvarint(hdr, sid)
